@@ -702,17 +702,31 @@ func (dec *Decoder) defaultDecode(t reflect.Type, p interface{}, tag byte) {
 			dec.ReadStruct(t)
 			next = dec.NextByte()
 		}
+		if dec.Error != nil {
+			return // nothing more is read after an error: not the value, not more definitions
+		}
 		dec.Decode(p, next)
 		return
 	case TagError:
-		var s string
-		dec.decodeString(stringType, dec.NextByte(), &s)
-		dec.Error = DecodeError(s)
+		dec.Error = DecodeError(dec.readErrorMessage())
 		return
 	default:
 		dec.decodeError(t, tag)
 	}
 }
+// readErrorMessage reads the text that follows the error tag. It is a string in one of its
+// forms; anything else (another error tag, say: a chain of them was followed by one level of
+// recursion per byte) is not a message.
+func (dec *Decoder) readErrorMessage() (s string) {
+	switch tag := dec.NextByte(); tag {
+	case TagString, TagUTF8Char, TagEmpty, TagRef:
+		dec.decodeString(stringType, tag, &s)
+	default:
+		s = "hprose/io: an error tag that is not followed by a message"
+	}
+	return
+}
+
 func (dec *Decoder) decodeError(t reflect.Type, tag byte) {
 	if dec.Error == nil {
 		var iface interface{}
